@@ -1,14 +1,14 @@
 SPECIFICATION Spec
-CONSTANTS NC = 3
- K = 2
+CONSTANTS NC = 2
+ K = 1
  MaxVotes = 2
- MaxLive = 3
+ MaxLive = 2
  MaxSteps = 0
- RestartAnywhere = FALSE
+ RestartAnywhere = TRUE
  Touch = {0}
- VMaps = {100}
- Persist = FALSE
- MaxChg = 3
+ VMaps = {1, 2, 3, 5, 6}
+ Persist = TRUE
+ MaxChg = 1
  Dev = {}
 INVARIANTS TypeOK TopIsFullSort FileOK
 PROPERTIES RestartKeepsTop
